@@ -41,7 +41,7 @@ def wire_family(ctx, prop, scenarios, rule, nontrivial=None, observe_props=None)
             ctx.samples.append({'scenario': s, 'events': len(es),
                                 'return': {k: ret[0][k] for k in ('ok', 'hops', 't') if ret and k in ret[0]}})
     # process-level panics count against every property evaluated on that scenario via C10/C19; here: only if asked
-    vt.confirm_and_report(ctx, by_id, viol, observe_props or [prop])
+    vt.confirm_and_report(ctx, by_id, viol, observe_props or [prop], history=vt.shard_order(traces))
     return evs
 
 def delivered_something(s, es):
@@ -196,7 +196,7 @@ def engine_family(ctx, prop, module, cfg, engine, obs_props, simulate=None):
     viol = vt.observe(ctx, traces, obs_props)
     trace_engine(ctx, cfg, traces, drift, module='TraceEngine' if engine == 'parallel' else 'TraceEngineSerial')
     ctx.extra['spec_drift'] = len(drift)
-    vt.confirm_and_report(ctx, {k: {kk: vv for kk, vv in v.items() if kk != '_key'} for k, v in by_id.items()}, viol, obs_props)
+    vt.confirm_and_report(ctx, {k: {kk: vv for kk, vv in v.items() if kk != '_key'} for k, v in by_id.items()}, viol, obs_props, history=vt.shard_order(traces))
 
 # ---------------------------------------------------------------------------------------------
 def check_C01(ctx):
